@@ -93,6 +93,77 @@ type effects struct {
 	emitted map[string]bool
 	facts   map[[4]string]bool
 	fns     map[*ssa.Function]bool
+	// function-valued parameters: for each such parameter of a module function, the functions passed at the
+	// call sites inside the module — when EVERY site passes a statically known function (a named function, a
+	// method expression, a closure), a call through the parameter is a static call to one of them
+	fnArgs    map[*ssa.Parameter][]*ssa.Function
+	fnArgsAny map[*ssa.Parameter]bool // some site passes a value that is not statically known
+}
+
+// funcOf: the function a func-typed value denotes, if it is statically known.
+func funcOf(v ssa.Value) *ssa.Function {
+	switch x := v.(type) {
+	case *ssa.Function:
+		return x
+	case *ssa.MakeClosure:
+		if fn, ok := x.Fn.(*ssa.Function); ok {
+			return fn
+		}
+	case *ssa.ChangeType:
+		return funcOf(x.X)
+	}
+	return nil
+}
+
+// unwrapThunk: a synthetic wrapper (method expression thunk, bound-method closure) stands for the method it calls.
+func unwrapThunk(fn *ssa.Function) *ssa.Function {
+	if fn == nil || fn.Synthetic == "" || len(fn.Blocks) != 1 {
+		return fn
+	}
+	for _, in := range fn.Blocks[0].Instrs {
+		if c, ok := in.(ssa.CallInstruction); ok {
+			if callee := c.Common().StaticCallee(); callee != nil {
+				return callee
+			}
+		}
+	}
+	return fn
+}
+
+// collectFuncArgs fills fnArgs / fnArgsAny from every call site in the module.
+func (e *effects) collectFuncArgs() {
+	e.fnArgs, e.fnArgsAny = map[*ssa.Parameter][]*ssa.Function{}, map[*ssa.Parameter]bool{}
+	for fn := range ssautil.AllFunctions(e.prog) {
+		if !e.isMod(fn) {
+			continue
+		}
+		for _, b := range fn.Blocks {
+			for _, in := range b.Instrs {
+				ci, ok := in.(ssa.CallInstruction)
+				if !ok {
+					continue
+				}
+				common := ci.Common()
+				callee := common.StaticCallee()
+				if callee == nil || !e.isMod(callee) || common.IsInvoke() {
+					continue
+				}
+				for i, arg := range common.Args {
+					if i >= len(callee.Params) {
+						break
+					}
+					if _, isFn := arg.Type().Underlying().(*types.Signature); !isFn {
+						continue
+					}
+					if f := funcOf(arg); f != nil {
+						e.fnArgs[callee.Params[i]] = append(e.fnArgs[callee.Params[i]], f)
+					} else {
+						e.fnArgsAny[callee.Params[i]] = true
+					}
+				}
+			}
+		}
+	}
 }
 
 func pointerLike(t types.Type) bool {
@@ -795,6 +866,42 @@ func (e *effects) emitCall(a *fa, f *ssa.Function, common *ssa.CallCommon) {
 		if ok && ld.Op == token.MUL {
 			g, ok2 = ld.X.(*ssa.Global)
 		}
+		if prm, isParam := common.Value.(*ssa.Parameter); isParam && !ok2 && !e.fnArgsAny[prm] && len(e.fnArgs[prm]) > 0 && prm.Parent() != nil && !prm.Parent().Object().Exported() {
+			// a call through a function-valued parameter of an UNEXPORTED function all of whose call sites pass
+			// statically known functions: a static call to each of them
+			done := map[*ssa.Function]bool{}
+			for _, target := range e.fnArgs[prm] {
+				real := unwrapThunk(target)
+				if done[real] {
+					continue
+				}
+				done[real] = true
+				if e.isMod(real) && len(real.Blocks) > 0 {
+					e.emit(real, a.calleeCtx(common, real), nil)
+					continue
+				}
+				tp := ""
+				if real.Pkg != nil {
+					tp = real.Pkg.Pkg.Path()
+				} else if real.Object() != nil && real.Object().Pkg() != nil {
+					tp = real.Object().Pkg().Path()
+				}
+				if tp == "" {
+					e.fact(f, "dynamic-call", org{cUnknown, ""}, name)
+					continue
+				}
+				w := org{cFresh, ""}
+				for _, arg := range common.Args {
+					w = join(w, a.worst(arg))
+				}
+				if idx, ok := extWriteArg(tp, real.String(), common); ok && idx < len(common.Args) {
+					e.fact(f, "extwrite", a.self(common.Args[idx]), real.String())
+				} else if w.c > cFresh {
+					e.facts[[4]string{e.fnName(f) + " -> " + real.String(), "external-call", w.c.String(), pkgGroup(tp)}] = true
+				}
+			}
+			return
+		}
 		if !ok2 || g.(*ssa.Global).Pkg == nil || e.inMod[g.(*ssa.Global).Pkg.Pkg.Path()] {
 			e.fact(f, "dynamic-call", org{cUnknown, ""}, name)
 			return
@@ -1060,6 +1167,7 @@ var genEffects = func(pkgs []*packages.Package) (content string, ok bool) {
 	for _, p := range pkgs {
 		e.inMod[p.PkgPath] = true
 	}
+	e.collectFuncArgs()
 	// common module prefix (github.com/go-i2p/common/)
 	for _, p := range pkgs {
 		if i := strings.LastIndex(p.PkgPath, "/"); i >= 0 {
